@@ -125,6 +125,7 @@ def check(ctx):
         "may::scheduler::Scheduler.global_queues": {"may::scheduler::Scheduler::collect_global"},
         "may::timeout_list::TimerThread.remove_list": {"may::timeout_list::TimerThread::run"},
         "may::io::sys::select::SingleSelector.free_ev": {"may::io::sys::select::Selector::free_unused_event_data"},
+        "may::io::sys::select::SingleSelector.del_timers": {"may::io::sys::select::Selector::select"},
         "may::scheduler::Scheduler.local_queues": {"may::scheduler::Scheduler::run_queued_tasks"},
     }
     seen = {}
